@@ -244,6 +244,8 @@ def run_load(name, fmt, api, data, consume=("exhaust", 0), knobs=None, budget=No
     rec["nopen"] = len(hs)
     rec["nread"] = sum(h.nread for h in hs)
     rec["bulk_after_lines"] = sum(getattr(h, "bulk_after_lines", 0) for h in hs)
+    # how many lines the file really has (only "\n" ends a line of a text file), for readers that take the file in bulk
+    rec["real_lines"] = data.count(b"\n") + (1 if data and not data.endswith(b"\n") else 0)
     lit = _SPY[-1] if _SPY else None
     rec["lit"] = None
     if lit is not None and hasattr(lit, "lineno") and hasattr(lit, "stack"):
@@ -353,8 +355,11 @@ def judge(trace, rec):
                 out.append(_v("message_no_filename", f"LoadError message does not name the file: {str(exc)[:120]}", trace))
             ln = getattr(exc, "lineno", None)
             seen = rec["nlines"] + rec["neof"]
+            if rec.get("nread", 0) > 0:
+                # a reader that takes (part of) the file in one piece: all that can be said is that the file has that many lines
+                seen = max(seen, rec["real_lines"] + 1)
             if ln is not None and not (0 <= ln <= seen):
-                out.append(_v("lineno_out_of_range", f"LoadError lineno {ln} but only {seen} lines were pulled from the file", trace))
+                out.append(_v("lineno_out_of_range", f"LoadError lineno {ln} but only {seen} lines " + ("exist in the file" if rec.get("nread", 0) > 0 else "were pulled from the file"), trace))
             elif ln is not None and ln > 0 and rec.get("bulk_after_lines", 0) > 0:
                 # line-wise parsing followed by a bulk read() of the rest: the reported line cannot be the last one read
                 out.append(_v("lineno_ignores_bulk_read", f"LoadError reports line {ln} but the rest of the file was consumed by a bulk read() after {rec['nlines']} lines", trace))
@@ -370,7 +375,7 @@ def judge(trace, rec):
         never_started = api == "load_many" and cons[0] in ("close", "drop") and cons[1] == 0
         if not sel and not never_started:  # (a generator that is never started cannot report anything)
             out.append(_v("missing_error", "load succeeded although no format module is selectable", trace))
-    if rec["lit"] is not None and rec["nopen"] == 1:
+    if rec["lit"] is not None and rec["nopen"] == 1 and not rec.get("nread", 0):
         lineno, nstack = rec["lit"]
         if lineno != rec["nlines"] + rec["neof"] - nstack:
             out.append(_v("lineno_drift", f"LineIterator.lineno {lineno} != {rec['nlines']}+{rec['neof']} pulled - {nstack} pushed back", trace))
